@@ -125,6 +125,9 @@ def pde_cov(agg, sols, what):
         "parameter_vectors": agg.count("parameter_vectors"),
         "points_evaluated": agg.count("points"),
         "skipped_near_branch_or_inadmissible": agg.count("skipped_near_branch"),
+        "skipped_reference_not_finite": agg.count("skipped_reference_not_finite"),
+        "parameter_vectors_with_special_values(0,+-1,integer,two equal)": agg.count("parameter_vectors_with_special_values"),
+        "points_with_a_coordinate_exactly_zero": agg.count("points_on_an_axis"),
         "max_error_ratio_in_units_of_u_e_per_evaluator(top 25)": {k: v for k, v in top[:25]},
         "evaluator_instances_monitored": len(worst),
         "semantic_tolerance": "2^20 * u_S * e (e = running-error magnitude of the reference operator)",
@@ -144,7 +147,8 @@ def pde_check(pid, sols, classes, tier, seed, quick=(120, 8), thorough=(4000, 16
     agg.add_shards(run_shards(pde_shards(exe, sols, seed, cases, points, classes)))
     floors = [("every solution in scope contributed samples", agg.ndistinct("solutions") == len(sols)),
               ("at least 100 comparisons per solution", agg.count("comparisons") >= 100 * len(sols)),
-              ("at least half of the parameter vectors non-trivial", agg.count("parameter_vectors_all_distinct_nonzero") * 2 >= agg.count("parameter_vectors"))]
+              ("at least half of the parameter vectors non-trivial", agg.count("parameter_vectors_all_distinct_nonzero") * 2 >= agg.count("parameter_vectors")),
+              ("fewer than 1% of the comparisons skipped because the reference is not finite", agg.count("skipped_reference_not_finite") * 100 <= agg.count("comparisons"))]
     for d, f in floors_extra:
         floors.append((d, f(agg)))
     return finish(agg, "exploration", pde_cov(agg, sols, what), PDE_ASSUME, floors)
